@@ -57,8 +57,10 @@ def run(tier, seed):
                 pass
     seeds = [0, 1, 2, 3, 4, 5, 6, 7] if quick else list(range(64))
     ok = True
-    jobs = [([{"kind": "loads", "text": t} for t in texts], s, None) for s in seeds]
+    # "every run": besides the hash seed the runs differ in the order in which the scripts are loaded (odd seeds: reversed)
+    jobs = [([{"kind": "loads", "text": t} for t in (texts if j % 2 == 0 else texts[::-1])], s, None) for j, s in enumerate(seeds)]
     results = subproc.run_many(jobs)
+    results = [r if j % 2 == 0 else r[::-1] for j, r in enumerate(results)]
     for i, t in enumerate(texts):
         base = results[0][i]
         res.case(t, t.count("\n") >= 4, {"script": t} if len(res.samples) < 3 else None)
@@ -98,7 +100,11 @@ def run(tier, seed):
             main = 'name main\nversion 1.0\ninclude "sub.xbb"\n\nsub | [%s]\nsub | [%s]\n' % (", ".join(map(str, call)), ", ".join(str(c + 10) for c in call))
             open(os.path.join(d, "main.xbb"), "w").write(main)
             items.append({"kind": "load", "path": os.path.join(d, "main.xbb")})
-        results = subproc.run_many([(items, s, None) for s in seeds])
+            if i % 3 == 0:
+                # a script that merely uses an operation called like the included program
+                items.append({"kind": "loads", "text": "name plain\nversion 1.0\n\nsub | [%s]\nVac | 0\n" % ", ".join(map(str, call))})
+        results = subproc.run_many([(items if j % 2 == 0 else items[::-1], s, None) for j, s in enumerate(seeds)])
+        results = [r if j % 2 == 0 else r[::-1] for j, r in enumerate(results)]
         for i in range(len(items)):
             base = results[0][i]
             res.case("include-%d-%s" % (i, json.dumps(base.get("obs", {}).get("ops", ""))[:80]), True, None)
@@ -106,6 +112,11 @@ def run(tier, seed):
             for s, r in zip(seeds[1:], results[1:]):
                 if json.dumps(r[i], sort_keys=True) != json.dumps(base, sort_keys=True):
                     ok = False
+                    if items[i]["kind"] == "loads":
+                        res.violate("the outcome of loading a script differs between two runs (hash seeds %s / %s, the scripts loaded in opposite orders)" % (seeds[0], s),
+                                    {"check": "order", "text": items[i]["text"], "seeds": [seeds[0], s], "main": open(items[i - 1]["path"]).read(),
+                                     "sub": open(os.path.join(os.path.dirname(items[i - 1]["path"]), "sub.xbb")).read()})
+                        break
                     res.violate("applying an included program depends on PYTHONHASHSEED (%s vs %s)" % (seeds[0], s),
                                 {"check": "include-seeds", "main": open(items[i]["path"]).read(), "sub": open(os.path.join(os.path.dirname(items[i]["path"]), "sub.xbb")).read(), "seeds": [seeds[0], s]})
                     break
@@ -115,7 +126,7 @@ def run(tier, seed):
     return finish(res, level="proof", trusted=fw.TRUSTED_COMMON + ["2^32 hash seeds cannot be enumerated: the order-independence theorems cover all iteration orders of the modelled set-iteration sites; T3 lists those sites"],
                   rule="scripts with 2-5 template parameters with overlapping names (a, ab, abc, bet, beta, ...) or 2-5 measured registers inside single "
                        "arguments, general random scripts with parameters and registers, and includes acting on 2-5 large unordered modes called twice; "
-                       "each is loaded and serialised in separate interpreters under 8 (thorough: 64) PYTHONHASHSEED values; canonical observation and "
+                       "each is loaded and serialised in separate interpreters under 8 (thorough: 64) PYTHONHASHSEED values, every other interpreter loading the scripts in the opposite order; canonical observation and "
                        "dump text must be identical (a transform's register order is canonicalised, its function values compared by register name)")
 
 
@@ -132,6 +143,13 @@ def replay(rep):
         open(os.path.join(scratch, "sub.xbb"), "w").write(inp["sub"])
         open(os.path.join(scratch, "main.xbb"), "w").write(inp["main"])
         it = [{"kind": "load", "path": os.path.join(scratch, "main.xbb")}]
+        if inp.get("check") == "order":
+            one = {"kind": "loads", "text": inp["text"]}
+            a = subproc.run_batch([it[0], one], inp["seeds"][0])[1]
+            b = subproc.run_batch([one, it[0]], inp["seeds"][1])[0]
+            same = json.dumps(a, sort_keys=True) == json.dumps(b, sort_keys=True)
+            print("identical:", same)
+            return 0 if same else 1
         a, b = subproc.run_batch(it, inp["seeds"][0]), subproc.run_batch(it, inp["seeds"][1])
         same = json.dumps(a, sort_keys=True) == json.dumps(b, sort_keys=True)
         print("identical:", same)
